@@ -257,8 +257,10 @@ func (f *dirFS) open(name string) (*fileImpl, error) {
 		}
 		perms := fi.Mode()
 		return &fileImpl{
-			file:  file,
-			name:  baseName,
+			file: file,
+			// Close restores the permissions of this very file: it needs the full path,
+			// a bare name would be resolved against the working directory of the process.
+			name:  fullpath,
 			perms: &perms,
 		}, nil
 	}
